@@ -35,6 +35,16 @@ fn main() {
                 println!("{} {}", c.property, c.families.iter().map(|f| f.name).collect::<Vec<_>>().join(","));
             }
         }
+        "stack-probe" => {
+            // child of the C04 family `deep_nesting`: the artifact arrives on stdin and is fed to the
+            // processing entry points on a thread with the given stack size; a stack overflow kills this
+            // process with a signal, which is what the parent looks for
+            let kib: usize = args.get(1).and_then(|s| s.parse().ok()).unwrap_or(2048);
+            let mut bytes = Vec::new();
+            let _ = std::io::Read::read_to_end(&mut std::io::stdin(), &mut bytes);
+            let h = std::thread::Builder::new().stack_size(kib * 1024).spawn(move || checks::c04::probe_entry_points(bytes)).expect("spawn probe thread");
+            std::process::exit(if h.join().is_ok() { 0 } else { 3 });
+        }
         "replay" => {
             let Some(p) = args.get(1) else {
                 eprintln!("replay needs a path");
